@@ -11,7 +11,142 @@ from .. import engine, solve
 from ... import mirrun
 
 
+class Q:
+    def __init__(self, ctx):
+        self.ctx, self.n, self.secs = ctx, 0, 0.0
+
+    def __call__(self, asserts):
+        v, model, s, detail = solve.check(self.ctx.script(asserts))
+        self.n += 1
+        self.secs += s
+        return v
+
+
+def fn_source(path, name):
+    src = open(mirrun.REPO + path).read()
+    i = src.index("fn %s(" % name)
+    j = src.index("\n    }\n", i)
+    return src[i:j]
+
+
+def emitted(ob, tier):
+    """generate_config_messages: every item a loop yields becomes exactly one pushed
+    WorkerRequest (nothing silently dropped, nothing duplicated) and the id counter advances
+    with it.  First iteration of every loop, iterators uninterpreted (arbitrary yields)."""
+    fn = mirrun.get_fn("command", "::generate_config_messages")
+    ex = engine.Executor(fn, loop_bound=lambda f, h: 1, max_nodes=200000)
+    ev = ex.run()
+    for i, e in enumerate(ev):
+        e.seq = i
+    q = Q(ex.ctx)
+    res = {"paths": ex.stats["nodes"], "functions": [fn.name]}
+    want_sites = len(re.findall(r"v\.push\(WorkerRequest", fn_source("/command/src/config.rs", "generate_config_messages")))
+    problems, wit = [], []
+    groups = {}
+    for e in ev:
+        if e.kind == "call" and e.node[1] and all(i == 0 for _, i in e.node[1]):
+            groups.setdefault(e.node[1][-1][0], []).append(e)
+    sites = 0
+    for header, g in sorted(groups.items(), key=lambda kv: int(kv[0][2:])):
+        pushes = [e for e in g if re.search(r"Vec::<WorkerRequest>::push$", e.callee)]
+        nxt = [e for e in g if e.node[0] == header and re.search(r"Iterator>::next$", e.callee)]
+        if not pushes:
+            continue
+        sites += len(pushes)
+        if len(nxt) != 1:
+            problems.append("loop %s: iterator call not found" % header)
+            continue
+        d = nxt[0].result_discr or ex.initial.get("discr(%s)" % nxt[0].dest)
+        some = engine.AND(nxt[0].guard, "(= %s %s)" % (d.term, engine.bv(1, 64)))
+        if q([some, engine.NOT(engine.OR(*[p.guard for p in pushes]))]) != "unsat":
+            problems.append("an item yielded by the loop at %s can be dropped without being pushed" % header)
+        for i in range(len(pushes)):
+            for j in range(i + 1, len(pushes)):
+                if q([pushes[i].guard, pushes[j].guard]) != "unsat":
+                    problems.append("an item yielded by the loop at %s can be pushed twice" % header)
+        # the counter advances once per push: an overflow check (the `count += 1`) follows each push
+        adds = [e for e in ev if e.kind == "assert" and e.node[1] == pushes[0].node[1] and "+" in e.msg]
+        if len(adds) != len(pushes):
+            problems.append("loop at %s: %d pushes but %d counter increments" % (header, len(pushes), len(adds)))
+        wit.append(q([some]))
+    outside = len([e for e in ev if e.kind == "call" and not e.node[1] and re.search(r"Vec::<WorkerRequest>::push$", e.callee)])
+    if sites + outside != want_sites:
+        problems.append("%d push sites in the MIR (%d in loops), %d `v.push(WorkerRequest` in the source" % (sites + outside, sites, want_sites))
+    res["witness"] = "%d emitting loops, each can yield: %s" % (len(wit), wit)
+    res["witness_ok"] = bool(wit) and all(w == "sat" for w in wit)
+    res["queries"], res["solver_s"] = q.n, round(q.secs, 2)
+    if problems:
+        return dict(res, verdict="counterexample", text="; ".join(problems), model={"problems": problems}, replay={"reproduced": False, "why": "no native replay"})
+    return dict(res, verdict="holds")
+
+
+PUSHERS = {"push_tls_listener": "Https", "push_http_listener": "Http", "push_tcp_listener": "Tcp"}
+
+
+def listeners(ob, tier):
+    """populate_clusters: a default listener is created only for an address known_addresses
+    does not hold yet, and creating one records that address with the protocol of the
+    listener created -- so a second frontend on the same address finds it (no duplicate
+    listener, no protocol confusion).  First iteration of each frontend loop."""
+    variants = engine.register_enum(mirrun.REPO + "/command/src/config.rs", "ListenerProtocol")
+    fn = mirrun.get_fn("command", "::populate_clusters", sig="&mut ConfigBuilder")
+    ex = engine.Executor(fn, loop_bound=lambda f, h: 1, max_nodes=200000)
+    ev = ex.run()
+    for i, e in enumerate(ev):
+        e.seq = i
+    q = Q(ex.ctx)
+    res = {"paths": ex.stats["nodes"], "functions": [fn.name]}
+    problems, wit = [], []
+    groups = {}
+    for e in ev:
+        if e.kind == "call" and e.node[1] and all(i == 0 for _, i in e.node[1]):
+            groups.setdefault(e.node[1], []).append(e)
+    seen = set()
+    for ctx, g in groups.items():
+        push = [e for e in g if re.search(r"::push_(tls|http|tcp|udp)_listener$", e.callee)]
+        if not push:
+            continue
+        gets = [e for e in g if re.search(r"HashMap::<std::net::SocketAddr, ListenerProtocol>::get(::<.*>)?$", e.callee)]
+        ins = [e for e in g if re.search(r"HashMap::<std::net::SocketAddr, ListenerProtocol>::insert$", e.callee)]
+        if len(gets) != 1:
+            problems.append("loop %s: known_addresses lookup not found" % (ctx[-1][0],))
+            continue
+        gd = gets[0].result_discr or ex.initial.get("discr(%s)" % gets[0].dest)
+        for p in push:
+            kind = p.callee.split("::")[-1]
+            seen.add(kind)
+            if q([p.guard, engine.NOT("(= %s %s)" % (gd.term, engine.bv(0, 64)))]) != "unsat":
+                problems.append("%s can run for an address that is already known (duplicate listener)" % kind)
+            pd = p.result_discr or ex.initial.get("discr(%s)" % p.dest)
+            ok = engine.AND(p.guard, "(= %s %s)" % (pd.term, engine.bv(0, 64)))
+            after = [i for i in ins if i.seq > p.seq]
+            if q([ok, engine.NOT(engine.OR(*[i.guard for i in after]))]) != "unsat":
+                problems.append("a listener created by %s is not recorded in known_addresses (a second frontend on that address creates it again)" % kind)
+                continue
+            want = engine.ENUM_VARIANTS[("ListenerProtocol", PUSHERS.get(kind, "Udp"))]
+            for i in after:
+                dd = i.args[2]["discr"] if len(i.args) > 2 else None
+                if dd is None:
+                    problems.append("%s: the recorded protocol is not a known constant" % kind)
+                elif q([ok, i.guard, engine.NOT("(= %s %s)" % (dd.term, engine.bv(want, 64)))]) != "unsat":
+                    problems.append("a listener created by %s is recorded under another protocol than %s" % (kind, variants[want]))
+            wit.append(q([ok]))
+    for k in PUSHERS:
+        if k not in seen:
+            problems.append("no default-listener site calls %s" % k)
+    res["witness"] = "default-listener sites reachable: %s" % wit
+    res["witness_ok"] = len(wit) >= 3 and all(w == "sat" for w in wit)
+    res["queries"], res["solver_s"] = q.n, round(q.secs, 2)
+    if problems:
+        return dict(res, verdict="counterexample", text="; ".join(sorted(set(problems))), model={"problems": problems}, replay={"reproduced": False, "why": "no native replay"})
+    return dict(res, verdict="holds")
+
+
 def run(ob, tier):
+    if ob.get("which") == "emitted":
+        return emitted(ob, tier)
+    if ob.get("which") == "listeners":
+        return listeners(ob, tier)
     fn = mirrun.get_fn("command", "::generate_config_messages")
     n = ob["unroll_thorough"] if tier == "thorough" else ob["unroll"]
 
